@@ -286,6 +286,9 @@ package starlark
 //@ protect [C04,C06] List.elems, List.elems[*] : !owner.frozen && owner.itercount == 0
 //@ protect [C05] List.itercount : !owner.frozen
 //@ monotone [C04] List.frozen : value == true
+// a frozen value may be read by other threads: its flag is written only while it is still false
+//@ protect [C05] List.frozen : !owner.frozen
+//@ protect [C05] hashtable.frozen : !owner.frozen
 //@ protect [C04,C06] hashtable.table, hashtable.len : !owner.frozen && owner.itercount == 0
 //@ protect [C05] hashtable.itercount : !owner.frozen
 //@ monotone [C04] hashtable.frozen : value == true
@@ -437,6 +440,9 @@ package starlark
 // to itself (function -> cell -> function) would otherwise recurse until the Go stack is exhausted
 // (fixed defect, see known_findings.json)
 //@ protect [C05] Function.frozen : !owner.frozen
+// apart from that mark a function value is never written after it has been built: threads that
+// call the same frozen function share nothing through it
+//@ protect [C05] Function.* : false
 //@ monotone [C04] Function.frozen : value == true
 //@ func Function.Freeze
 //@   prop C04 C05 C02
@@ -916,7 +922,10 @@ package starlark
 // ---- set and dict operators (C12): the receiver of the derived operation is the LEFT operand
 // (whose order the result keeps), whatever the sizes of the operands
 //@ func Binary
-//@   prop C12
+//@   prop C12 C04 C13 C10
+//@   ensures [C10] right_shift_is_exact: op == syntax.GTGT && typeis(x, Int) && typeis(y, Int) && 0 <= val(as(y, Int)) && val(as(y, Int)) <= MAX32 ==> result1 == nil && typeis(result0, Int) && val(as(result0, Int)) == rsh(val(as(x, Int)), val(as(y, Int)))
+//@   assert /return NewList\(z\), nil/ [C04,C13] list_concatenation_is_a_fresh_copy: len(z) == len(x.elems) + len(y.elems) && (len(z) > 0 ==> freshobj(storeof(z))) && forall(k, 0, len(x.elems), z[k] == x.elems[k]) && forall(k, 0, len(y.elems), z[len(x.elems) + k] == y.elems[k])
+//@   assert /return z, nil/ [C13] tuple_concatenation_is_a_fresh_copy: len(z) == len(x) + len(y) && (len(z) > 0 ==> freshobj(storeof(z))) && forall(k, 0, len(x), z[k] == x[k]) && forall(k, 0, len(y), z[len(x) + k] == y[k])
 //@   assert /return x.Difference\(iter\)/ left_operand_is_the_receiver: x == as(param(x), *Set)
 //@   assert /return x.Union\(iter\)/ left_operand_is_the_receiver: x == as(param(x), *Set)
 //@   assert /return x.Union\(y\), nil/ left_operand_is_the_receiver: x == as(param(x), *Dict) && y == as(param(y), *Dict)
@@ -962,3 +971,39 @@ package starlark
 //@   invariant 1 captured(ht) == param(ht) && param(ht).itercount == ite(old(ht.frozen), old(ht.itercount), wrapu32(old(ht.itercount) + 1))
 //@   onpanic lock_released_if_yield_panics: param(ht).itercount == old(ht.itercount)
 //@   ensures lock_released: param(ht).itercount == old(ht.itercount)
+
+// ---- cancellation is sticky (C07): only the host can revive a cancelled thread -- nothing inside
+// the module (no entry point, no built-in) calls Uncancel
+//@ no_callers [C07] Thread.Uncancel
+
+// an expression is compiled under the caller's options (its lambdas are subject to the same
+// recursion check as functions of a file)
+//@ func makeExprFunc
+//@   prop C09
+//@   assert /return makeToplevelFunction\(&Program\{prog\}, env\), nil/ compiled_under_the_callers_options: prog.Recursion == opts.Recursion
+
+// ---- x >> y on ints (C10): for every non-negative count the operator returns exactly what
+// Int.Rsh computes (floor division by 2^y, for negative x too) -- there is no count beyond
+// which the result is "simply zero"
+//@ specfn rsh(v int, k int) int
+//@ func Int.Rsh
+//@   prop C10
+//@   abstraction floor_shift: val(result) == rsh(val(x), y)
+// (the clause is on Binary's contract, with the set and dict operators)
+
+// ---- find / index / rfind / rindex with a sub-range (C13): the search runs in recv[start:end]
+// (after normalisation) and nowhere else, and a hit is reported relative to the whole string
+//@ func string_find_impl
+//@   prop C13
+//@   assert /if i < 0 \{/ searches_exactly_the_window: i == ite(last, slidx(slice, sub), sidx(slice, sub)) && len(slice) == max(end - start, 0) && forall(k, 0, len(slice), slice[k] == s[start + k]) && start == lo3(start_, len(s)) && end == clamp(norm(end_, len(s), len(s)), 0, len(s))
+
+// ---- zip (C13): with sequences of known length the result has as many rows as the shortest of
+// them -- never more than any argument can supply (an empty first argument included)
+//@ specfn vlen(x iface) int
+//@ func Len
+//@   pure
+//@   abstraction names_the_length: result == vlen(x)
+//@ func zip
+//@   prop C13
+//@   invariant 1 rangeindex >= -1 && cols == len(args) && forall(k, 0, rangeindex + 1, rows <= vlen(args[k])) && (rangeindex < 0 ==> rows == 0)
+//@   assert /if rows >= 0 \{/ no_more_rows_than_the_shortest_argument: forall(k, 0, len(args), rows <= vlen(args[k]))
